@@ -31,7 +31,7 @@ CLAIMS = {
             'C08_total: no string makes the loader panic (every board index and list append is guarded); C08_sound: every accepted string yields a well-formed position (lists = board, one king each, capacities incl. room for promotions, no back-rank pawns, consistent castling/ep fields, ply in range, side not to move not in check). Both for ALL strings. C08rt.v (FenRoundtrip): C08_faithful / C08_every_legal_position_accepted: every legal position of the rules (Spec.legal_position), printed as a FEN by a printer defined on the rules\' side (six fields, canonical digit compression), with any halfmove clock up to 2^63-1 and move number 1..15933, is accepted and loaded as exactly that position (the 64 squares, side, rights, ep, ply): no legal position is ever rejected.' + CORR,
             TB + 'Faithfulness is proved for the canonical FEN text of every legal position; other spellings of the same position (digit runs split differently, castling letters in another order) and a rejected FEN leaving the position unchanged are decided by the differential stream and the command interpreter.', '6/C08'),
     'C09': ('Coq theorems isUnderCheck = geometry for every board + exhaustive single-attacker enumeration (2.9M cases) + positions',
-            'C09_piece/pawn/king/under_check: on ANY board, with lists that agree with the board, the engine\'s attack test equals the rules\' geometry (sliders blocked by any piece in between, knights/kings/pawns not, pawns by colour, nothing across the edge); proved from kernel sweeps over the regenerated attack/direction tables (64x64) plus generic ray lemmas.' + CORR,
+            'C09_piece/pawn/king/under_check: on ANY board, with lists that agree with the board, the engine\'s attack test equals the rules\' geometry (sliders blocked by any piece in between, knights/kings/pawns not, pawns by colour, nothing across the edge); proved from kernel sweeps over the regenerated attack/direction tables (64x64) plus generic ray lemmas; C09src.v: the table index moveIndex is translated from the SOURCE TEXT on every run and proved equal to the model\'s move_index for all byte-sized squares; positions in check are also asked right after a twin with a shielding piece added (answers must not depend on the previous question).' + CORR,
             TB + 'The complete enumeration of the property\'s quantifier (12 attackers x from x to x no/one blocker) runs on every check through the hook against model and Spec.', '6/C09'),
     'C10': ('Coq theorems on the search state machine (every oracle) + replay of every printed PV of real searches',
             'C10_all_output_wellformed etc.: every info line the search prints (mid-iteration ones included) carries a non-empty line that is legal move by move from the root, currmove lines name a legal root move with its 1-based number, bestmove is the head of the last PV line; for all stop/clock timings and orderings; a stale PV row read is a model panic, excluded by the theorems.' + CORR,
@@ -43,7 +43,7 @@ CLAIMS = {
             'C12_*: over every reachable state of the command-thread/search-thread LTS at shared-operation granularity: the command thread never blocks, a stop seen by a running search is in the channel until polled, exactly one bestmove per go, isready always answered and transparent, no stale token reaches a later search, bounded work after the stop; the pre-fix protocol is refuted by three concrete schedules. C12lat.v (LatencyProofs): the bound the transition system assumes between polls is proved of the search model: at most 64 node evaluations between two polls of the stop channel (one leftmost capture chain), a latched flag only unwinds, a stop visible at the k-th poll ends the whole go within (k+1+max_depth)*64 evaluations; the quiescence loop as it was before fix 67f3a87 never polled (C12_prefix_quiescence_never_polled). Tie: PROTO stream - random interleavings of commands and search-thread progress with the shared state (running flag, pending stop, bestmoves, readyoks, interruption flag, phase) compared after every step with Protocol.step; stop latency of the real binary on capture-heavy positions.' + CORR,
             TB + 'Partial: sequentially consistent interleaving of shared operations; the Go memory model/scheduler is not modelled (the shared accesses are an atomic.Bool and channel operations; -race run in the thorough tier).', '6/C12'),
     'C13': ('Coq theorems (lia) on the allotment formula + translation validation of calcEndtime from the Go source text + exhaustive boundary-lattice correspondence through the real `go` command',
-            'C13_value/mover_clock/bounds/mono_left/mono_inc/anti_mtg/movetime/clock_deadline/parsed_mtg/no_panic hold for ALL integers in the stated range; C13src.v: the SOURCE TEXT of calcEndtime is translated to a syntax tree on every run (verifh gen-fns, go/parser) and proved, under the Go semantics of GoLang.v, to compute exactly the model function for all arguments (division by zero included), so an edit of that function breaks a named proof; the model (Uci.v) is also executed against the built engine on 462k `go` commands (complete lattice + random/malformed argument lists).' + CORR,
+            'C13_value/mover_clock/bounds/mono_left/mono_inc/anti_mtg/movetime/clock_deadline/parsed_mtg/no_panic hold for ALL integers in the stated range (C13_movetime for every movetime value, -1 included); C13src.v: the SOURCE TEXT of calcEndtime is translated to a syntax tree on every run (verifh gen-fns, go/parser) and proved, under the Go semantics of GoLang.v, to compute exactly the model function for all arguments (division by zero included), so an edit of that function breaks a named proof; the model (Uci.v) is also executed against the built engine on 462k `go` commands (complete lattice + random/malformed argument lists).' + CORR,
             TB + 'Partial: wall-clock honouring of the deadline is sampled (validation).', '6/C13'),
     'C14': ('Coq theorems on the session machine (position resets, go reads only position+killers, log interval only affects currmove lines) + engine-vs-engine histories',
             'C14_position_resets, C14_go_reads_only_position_and_killers, C14_logging_option_irrelevant: after an accepted `position` the only state a `go` reads is the position, an EMPTY killer table and the logging interval; the interval changes nothing but currmove events (simulation proof through the whole search: scores, lines, node counts, killers equal). Engine: the probe `position P; go depth d` in a fresh process vs after random histories (other and the same position searched deeper, stopped searches, perft/eval, setoption), move numbers at the killer-table boundaries; all info-depth lines incl. node counts and PVs must be identical.' + CORR,
